@@ -606,6 +606,13 @@ def parser_tie(ctx, n):
     for s, o in zip(keep, outs):
         ctx.case(['parser-tie', s], kind='parser-tie')
         py = reparse(s)
+        if py is None:
+            try: ast.parse(s, mode='eval'); msg = ''
+            except SyntaxError as e: msg = str(e)
+            except Exception as e: msg = type(e).__name__
+            if re.search(r'follows|duplicate argument|keyword argument repeated', msg):
+                # order rules between kinds of arguments / parameters: outside the expression grammar that is modelled
+                ctx.count('parser-tie:cpython-argument-order-rule'); continue
         try:
             want = None if py is None else to_model(py)
         except Outside:
